@@ -312,12 +312,24 @@ func (e *Env) object(pt reflect.Type, path string, fill bool) reflect.Value {
 			case et.Kind() == reflect.Struct && fill && et != reflect.TypeOf(time.Time{}) && StructFillFields[name]:
 				f.Set(e.object(f.Type(), joinPath(path, name), false))
 			}
+		case reflect.Struct:
+			// struct_fields_always_pointers: false
+			if fill && StructFillFields[name] && f.Type() != reflect.TypeOf(time.Time{}) {
+				f.Set(e.object(reflect.PtrTo(f.Type()), joinPath(path, name), false).Elem())
+			}
 		case reflect.Slice:
 			et := f.Type().Elem()
 			if fill && StructFillFields[name] && et.Kind() == reflect.Ptr && et.Elem().Kind() == reflect.Struct {
 				sl := reflect.MakeSlice(f.Type(), 2, 2)
 				for k := 0; k < 2; k++ {
 					sl.Index(k).Set(e.object(et, elemPath(joinPath(path, name), k), false))
+				}
+				f.Set(sl)
+			} else if fill && StructFillFields[name] && et.Kind() == reflect.Struct {
+				// omit_slice_element_pointers: []M
+				sl := reflect.MakeSlice(f.Type(), 2, 2)
+				for k := 0; k < 2; k++ {
+					sl.Index(k).Set(e.object(reflect.PtrTo(et), elemPath(joinPath(path, name), k), false).Elem())
 				}
 				f.Set(sl)
 			}
